@@ -160,6 +160,9 @@ func genC04(r *Rand, tier string) *Case {
 		c.Conns = []ConnCase{{Steps: steps, Measure: true}}
 		return withBystander(c)
 	}
+	if r.Chance(1, 80) {
+		return c04LargeTruncated(r)
+	}
 	if r.Chance(1, 500) {
 		return c04CopyRows(int64(r.PickInt(50000, 120000)), r.PickInt(4096, 65536))
 	}
@@ -293,6 +296,48 @@ func genC04(r *Rand, tier string) *Case {
 	return withBystander(c)
 }
 
+// c04LargeTruncated: a message of 64 KiB - 400 KB (within the limit) whose
+// declared length is never delivered in full - its declared length exceeds
+// what is sent, or the stream ends inside surplus bytes behind the fields -
+// although every field of it has arrived. Nothing may be executed for it.
+func c04LargeTruncated(r *Rand) *Case {
+	c := &Case{Variant: "malformed-last", Server: ServerCfg{Limit: r.PickInt(1<<18, 1<<20, 1<<20, 0)}, Programs: map[string]*Program{}, Expect: map[string]any{"malformed_last": true}}
+	c.Programs["s"] = &Program{Stmts: []*StmtProg{{Params: []uint32{25, 25}, Cols: []ColSpec{{Name: "a", OID: 25}}, Ops: []Op{{K: "params"}, {K: "row", Row: []Val{{G: "string", S: "x"}}}, {K: "complete", Tag: "SELECT 1"}}}}}
+	n := r.PickInt(65531, 65537, 66000, 70000, 131072, 200000)
+	var last pgwire.FMsg
+	var pre []pgwire.FMsg
+	if r.Bool() {
+		last = pgwire.FMsg{K: "Q", S1: "s " + strings.Repeat("x", n)}
+	} else {
+		pre = []pgwire.FMsg{{K: "P", S1: "", S2: "s"}}
+		last = pgwire.FMsg{K: "B", Params: []pgwire.Param{{V: []byte(strings.Repeat("v", n))}, {V: []byte("two")}}}
+		if r.Bool() {
+			pre = append(pre, last, pgwire.FMsg{K: "E"})
+			last = pgwire.FMsg{K: "E", Tail: make([]byte, n)}
+		}
+	}
+	if r.Bool() {
+		// the declared length promises more than is ever sent
+		real := len(last.Bytes()) - 1 // (type byte excluded; surplus bytes included)
+		last.DeclLen = u32p(uint32(real + r.PickInt(1, 2, 100, 70000)))
+	} else {
+		// surplus bytes behind the fields, and the stream ends inside them
+		last.Tail = append(last.Tail, make([]byte, r.PickInt(1, 100, 70000))...)
+		last.Cut = intp(len(last.Bytes()) - r.PickInt(1, 1, 2, 50))
+	}
+	steps := []Step{{Msgs: []pgwire.FMsg{startupMsg("u", "d")}}}
+	if len(pre) > 0 {
+		steps = append(steps, Step{Msgs: pre})
+	}
+	steps = append(steps, Step{Msgs: []pgwire.FMsg{last}})
+	cc := ConnCase{Steps: steps, Measure: true}
+	if r.Bool() {
+		cc.Cuts = []int{r.PickInt(4096, 1000, 65536, 100000)}
+	}
+	c.Conns = []ConnCase{cc}
+	return withBystander(c)
+}
+
 // c04Judge applies the safety oracles to one run. base, when given, is the
 // fault-free run of the same case: a connection whose transport broke may
 // only have done a prefix of what the fault-free one did.
@@ -391,17 +436,8 @@ func c04Judge(c *Case, r *Result, base *Result) []Violation {
 		}
 		// S5': nothing may be executed for a message that is certainly malformed
 		if v, _ := c.Expect["malformed_last"].(bool); v {
-			var fedSeq int64 = -1
-			for _, e := range cs.Events {
-				if e.K == "quiesce" && strings.HasSuffix(e.S, fmt.Sprintf("step=%d", len(cs.cc.Steps))) && fedSeq < 0 {
-					fedSeq = e.Seq
-				}
-			}
-			for _, e := range cs.Events {
-				if fedSeq >= 0 && e.Seq > fedSeq && (e.K == "stmt" || e.K == "parse" || e.K == "op") {
-					add("malformed-message-executed", "malformed-message-executed", fmt.Sprintf("conn %d: a truncated/inconsistent message reached a callback: %s %s", i, e.K, trunc(e.S, 100)))
-					break
-				}
+			if what := executedAfterLastFlight(cs); what != "" {
+				add("malformed-message-executed", "malformed-message-executed", fmt.Sprintf("conn %d: a truncated/inconsistent message reached a callback: %s", i, what))
 			}
 		}
 	}
@@ -412,6 +448,23 @@ func c04Judge(c *Case, r *Result, base *Result) []Violation {
 		add("accept-loop-stopped", "accept-loop-stopped", fmt.Sprintf("only %d of %d connections were accepted", r.Accepts, len(r.Conns)))
 	}
 	return viol
+}
+
+// executedAfterLastFlight names the first parser / statement / result-writer
+// event that happened after the client's last flight was fed ("" if none).
+func executedAfterLastFlight(cs *connState) string {
+	var fedSeq int64 = -1
+	for _, e := range cs.Events {
+		if e.K == "quiesce" && strings.HasSuffix(e.S, fmt.Sprintf("step=%d", len(cs.cc.Steps))) && fedSeq < 0 {
+			fedSeq = e.Seq
+		}
+	}
+	for _, e := range cs.Events {
+		if fedSeq >= 0 && e.Seq > fedSeq && (e.K == "stmt" || e.K == "parse" || e.K == "op") {
+			return e.K + " " + trunc(e.S, 100)
+		}
+	}
+	return ""
 }
 
 // invocationTrace lists which callbacks were invoked with which arguments
@@ -639,7 +692,7 @@ func c04Fixed(tier string) []*Case {
 func init() {
 	register(&Prop{
 		ID: "C04", Level: "fault_enumeration", QuickS: 30, ThoroughS: 480,
-		Rule:       "fault enumeration: for each of a fixed corpus of 38 sessions (generated with fixed seeds over every phase: startup with/without authentication and middleware, SSLRequest declined, CancelRequest, simple and extended queries with failing handlers, COPY text and binary through the row reader, oversized and unknown messages) EVERY transport fault position is enumerated: fail the k-th read (all k), end the input after the n-th byte (all n), fail the k-th write with 0 / 1 / all-but-one bytes accepted (all k); plus enumerated truncations of a Bind and a Query at every byte, Bind value lengths beyond the body, counts 0xFFFF; plus seeded cases: random bytes on a fresh connection and after a valid startup, startup-phase packets with perturbed lengths and protocol versions, generated sessions with one field-level mutation (length word 0-3/L+1/2^31-1/2^32-1, truncation, missing NUL, counts 0xFFFF, value length beyond body, random type byte, 1-4 GiB declared with little sent), hostile texts through ParseParameters, corrupted binary COPY rows, and seeded fault combinations; oracles: the worker process survives (a death is attributed to the recorded case and confirmed alone), the hostile connection is closed and the server issues no further transport operation within the budget, a bystander session accepted afterwards on the same Server is served exactly as the model says and Serve returns nil, per-step allocation stays below 4L+16MiB, a faulted connection's callbacks/output are a prefix of the fault-free ones, nothing is executed for a certainly-malformed message; every case counts as TLS negotiation broken off by the peer after 'S' (alert records, truncated ClientHello, other record types, junk); peers that stall before their startup is complete while a bystander connects; messages around and beyond the size limit behind legal traffic of every size (the generator of C10); non-trivial; distinct = distinct case content hashes; flood scenarios (enumerated and seeded): 100k-1M body-less messages in COPY, ready and discarding state with bounds on goroutine-stack and live-heap growth",
+		Rule:       "fault enumeration: for each of a fixed corpus of 38 sessions (generated with fixed seeds over every phase: startup with/without authentication and middleware, SSLRequest declined, CancelRequest, simple and extended queries with failing handlers, COPY text and binary through the row reader, oversized and unknown messages) EVERY transport fault position is enumerated: fail the k-th read (all k), end the input after the n-th byte (all n), fail the k-th write with 0 / 1 / all-but-one bytes accepted (all k); plus enumerated truncations of a Bind and a Query at every byte, Bind value lengths beyond the body, counts 0xFFFF; plus seeded cases: random bytes on a fresh connection and after a valid startup, startup-phase packets with perturbed lengths and protocol versions, generated sessions with one field-level mutation (length word 0-3/L+1/2^31-1/2^32-1, truncation, missing NUL, counts 0xFFFF, value length beyond body, random type byte, 1-4 GiB declared with little sent), hostile texts through ParseParameters, corrupted binary COPY rows, and seeded fault combinations; oracles: the worker process survives (a death is attributed to the recorded case and confirmed alone), the hostile connection is closed and the server issues no further transport operation within the budget, a bystander session accepted afterwards on the same Server is served exactly as the model says and Serve returns nil, per-step allocation stays below 4L+16MiB, a faulted connection's callbacks/output are a prefix of the fault-free ones, nothing is executed for a certainly-malformed message; every case counts as TLS negotiation broken off by the peer after 'S' (alert records, truncated ClientHello, other record types, junk); peers that stall before their startup is complete while a bystander connects; final messages of 64 KiB - 400 KB whose every field arrives but whose declared length does not (nothing is executed for them); messages around and beyond the size limit behind legal traffic of every size (the generator of C10); non-trivial; distinct = distinct case content hashes; flood scenarios (enumerated and seeded): 100k-1M body-less messages in COPY, ready and discarding state with bounds on goroutine-stack and live-heap growth",
 		Exhaustive: "every read index, input byte offset and write index (x3 accepted-byte counts) of each corpus session; every truncation offset of the handcrafted Bind and Query",
 		Components: append(append([]string{}, e1Components...), "E2 share (the variants that pin Server.Close or other connections against a running session): seeded scheduler harness/kernel.go decides every interleaving of connection goroutines and Close callers at transport operations, callbacks, hand-placed hooks and spliced synchronisation points"), Assumptions: append(append([]string{}, commonAssumptions...), "allocation failure and Accept errors are not injected (not injectable in Go / no property speaks about them)"),
 		Fixed: c04Fixed, Gen: genC04, Check: checkC04,
